@@ -51,6 +51,7 @@ var gSummarisers = map[string]func(job json.RawMessage, modelOK bool, scratch st
 // broken in a systematic way and the remaining cases get a short one.
 var gDeadlineHits atomic.Int32
 var gQuiesceHits atomic.Int32
+var gPageHits atomic.Int32 // runs in which a page was found given back too early (gExec)
 
 func gDeadlineNow() time.Duration {
 	switch n := gDeadlineHits.Load(); {
